@@ -279,6 +279,22 @@ def _normalise_syntax(tree):
 
     def one(st):
         """Rewrite one statement (children already normalised) into a list of statements."""
+        if isinstance(st, ast.If) and len(st.body) == 1 and len(st.orelse) == 1 and all(isinstance(s_, ast.Assign) and len(s_.targets) == 1 and isinstance(s_.targets[0], ast.Name) for s_ in (st.body[0], st.orelse[0])) and st.body[0].targets[0].id == st.orelse[0].targets[0].id:
+            # `if c: x = False else: x = E`  ->  `x = (not c) and E` ; `if c: x = True else: x = E` -> `x = c or E` (and the mirrored forms)
+            a_, b_ = st.body[0].value, st.orelse[0].value
+            tgt_ = st.body[0].targets[0]
+            neg_ = ast.UnaryOp(op=ast.Not(), operand=st.test)
+            val_ = None
+            if isinstance(a_, ast.Constant) and a_.value is False:
+                val_ = ast.BoolOp(op=ast.And(), values=[neg_, b_])
+            elif isinstance(a_, ast.Constant) and a_.value is True:
+                val_ = ast.BoolOp(op=ast.Or(), values=[st.test, b_])
+            elif isinstance(b_, ast.Constant) and b_.value is False:
+                val_ = ast.BoolOp(op=ast.And(), values=[st.test, a_])
+            elif isinstance(b_, ast.Constant) and b_.value is True:
+                val_ = ast.BoolOp(op=ast.Or(), values=[neg_, a_])
+            if val_ is not None and isinstance(b_ if isinstance(a_, ast.Constant) else a_, (ast.Compare, ast.BoolOp, ast.UnaryOp, ast.Name, ast.Attribute)):
+                return [ast.copy_location(ast.Assign(targets=[tgt_], value=ast.copy_location(val_, st.test)), st)]
         if isinstance(st, ast.Assign) and len(st.targets) == 1 and isinstance(st.value, ast.IfExp) and isinstance(st.targets[0], (ast.Name, ast.Attribute, ast.Subscript)) and call_free(st.targets[0]):
             v = st.value
             a = ast.copy_location(ast.Assign(targets=[st.targets[0]], value=v.body), st)
@@ -501,7 +517,7 @@ def _propagate_pure_temps(tree):
                         for r, key in obj_writes:
                             if r in roots:
                                 k = key.lstrip("*")
-                                if key.startswith("*") or any(k == rd or rd.startswith(k) or k.startswith(rd + "[") or k.startswith(rd + ".") for rd in reads if rd != r) or k == r:
+                                if any(k == rd or rd.startswith(k + "[") or rd.startswith(k + ".") or k.startswith(rd + "[") or k.startswith(rd + ".") for rd in reads if rd != r) or k == r:
                                     clash = True
                         if clash:
                             continue
@@ -1012,6 +1028,105 @@ def _inline_module_helpers(trees):
             return
 
 
+def _inline_expression_helpers(trees):
+    """A private method / module-level function no rule names whose body is a single `return <expr>` is substituted,
+    as an expression, at every call `self.h(args)` / `h(args)` (any position: loop tests, conditions, arguments) when
+    the arguments are call-free, the name is defined once in the package and every reference is such a call (at most 6)."""
+    import copy as _copy
+
+    anchors = anchor_names()
+    defs = {}
+    for t in trees:
+        for c in [t] + [n for n in ast.walk(t) if isinstance(n, ast.ClassDef)]:
+            for f in c.body:
+                if isinstance(f, ast.FunctionDef):
+                    defs.setdefault(f.name, []).append((t, c, f))
+    refs = {}
+    for t in trees:
+        for n in ast.walk(t):
+            if isinstance(n, ast.Attribute):
+                refs[n.attr] = refs.get(n.attr, 0) + 1
+            elif isinstance(n, ast.Name):
+                refs[n.id] = refs.get(n.id, 0) + 1
+            elif isinstance(n, ast.alias):
+                refs[(n.asname or n.name).split(".")[-1]] = refs.get((n.asname or n.name).split(".")[-1], 0) + 1
+            elif isinstance(n, ast.Constant) and isinstance(n.value, str) and n.value.isidentifier():
+                refs[n.value] = refs.get(n.value, 0) + 1
+    for nm, ds in defs.items():
+        if len(ds) != 1 or nm in anchors or not nm.startswith("_") or nm.startswith("__"):
+            continue
+        t, c, h = ds[0]
+        if h.decorator_list or h.args.vararg or h.args.kwarg or h.args.posonlyargs or h.args.kwonlyargs:
+            continue
+        body = [s for s in h.body if not (isinstance(s, ast.Expr) and isinstance(s.value, ast.Constant) and isinstance(s.value.value, str))]
+        if len(body) != 1 or not isinstance(body[0], ast.Return) or body[0].value is None:
+            continue
+        is_method = isinstance(c, ast.ClassDef)
+        params = [a.arg for a in h.args.args][1 if is_method else 0 :]
+        if is_method and (not h.args.args or h.args.args[0].arg != "self"):
+            continue
+        expr = body[0].value
+        if any(isinstance(x, (ast.Lambda, ast.ListComp, ast.SetComp, ast.DictComp, ast.GeneratorExp, ast.Yield, ast.Await, ast.NamedExpr)) for x in ast.walk(expr)):
+            continue
+        scope = c if is_method else t
+        sites = []
+        for n in ast.walk(scope):
+            if isinstance(n, ast.Call) and ((is_method and isinstance(n.func, ast.Attribute) and n.func.attr == nm and isinstance(n.func.value, ast.Name) and n.func.value.id == "self") or (not is_method and isinstance(n.func, ast.Name) and n.func.id == nm)):
+                sites.append(n)
+        if not sites or len(sites) > 6 or refs.get(nm, 0) != len(sites):
+            continue
+        if any(x is s for s in sites for x in ast.walk(h)):
+            continue  # recursive
+        ok = True
+        binds = []
+        for s in sites:
+            if s.keywords and any(k.arg is None for k in s.keywords) or any(isinstance(a, ast.Starred) for a in s.args) or len(s.args) > len(params):
+                ok = False
+                break
+            b = dict(zip(params, s.args))
+            for k in s.keywords:
+                if k.arg not in params or k.arg in b:
+                    ok = False
+                b[k.arg] = k.value
+            dflt = dict(zip(params[len(params) - len(h.args.defaults):], h.args.defaults))
+            for p_ in params:
+                if p_ not in b:
+                    if p_ in dflt:
+                        b[p_] = dflt[p_]
+                    else:
+                        ok = False
+            if not ok or any(isinstance(x, (ast.Call, ast.Await, ast.Yield, ast.NamedExpr)) for v in b.values() for x in ast.walk(v)):
+                ok = False
+                break
+            binds.append(b)
+        if not ok:
+            continue
+        parent = {}
+        for n in ast.walk(scope):
+            for fld, v in ast.iter_fields(n):
+                if isinstance(v, list):
+                    for i, x in enumerate(v):
+                        if isinstance(x, ast.AST):
+                            parent[id(x)] = (n, fld, i)
+                elif isinstance(v, ast.AST):
+                    parent[id(v)] = (n, fld, None)
+        for s, b in zip(sites, binds):
+            class R(ast.NodeTransformer):
+                def visit_Name(self, n_):
+                    if n_.id in b and isinstance(n_.ctx, ast.Load):
+                        return ast.copy_location(_copy.deepcopy(b[n_.id]), n_)
+                    return n_
+
+            new = ast.copy_location(R().visit(_copy.deepcopy(expr)), s)
+            par, fld, i = parent[id(s)]
+            if i is None:
+                setattr(par, fld, new)
+            else:
+                getattr(par, fld)[i] = new
+        (c.body if is_method else t.body).remove(h)
+        ast.fix_missing_locations(t)
+
+
 def _flatten_mixins(trees):
     """A private helper base class (name starts with `_`, no rule names it, no bases of its own beyond object / ABC,
     no `__init__`, used as a base by exactly one class of the package and referenced nowhere else) is merged into that
@@ -1130,6 +1245,8 @@ class Program:
             _flatten_mixins([t[4] for t in parsed])
             _inline_helpers([t[4] for t in parsed])
             _inline_module_helpers([t[4] for t in parsed])
+            _inline_expression_helpers([t[4] for t in parsed])
+            _inline_helpers([t[4] for t in parsed])
         for modname, path, rel, source, tree, is_pkg in parsed:
             _normalise_syntax(tree)
             if self.propagate_aliases:
